@@ -518,6 +518,16 @@ impl RawRecords {
         header.validate()?;
         self.current_offset += self.record_header_size;
         self.current_offset += header.meta_size();
+        // A record whose meta or data is cut short by the end of the file (a torn append) is as unusable as one
+        // whose header is cut: it must not get into the index even when the data is not read back here
+        if self.current_offset.saturating_add(header.data_size()) > self.file.size() {
+            return Err(Error::from(ErrorKind::Bincode(format!(
+                "record is cut by the end of the file: {} bytes expected, file size is {}",
+                self.current_offset.saturating_add(header.data_size()),
+                self.file.size()
+            )))
+            .into());
+        }
         let data = if read_data {
             buf.resize(header.data_size() as usize, 0);
             buf = self
